@@ -75,6 +75,10 @@ def main():
     meta["what_was_run"] = [f"go test -run TestSeedDemo (without / with patch) in {wt}", f"tools_repotest.sh {wt} with patch", "git -C /repo apply; ./run.sh <check> quick; git -C /repo checkout -- ."]
     dst = f"/verif/seeded/{pid}-{which}{suffix}"
     os.makedirs(dst, exist_ok=True)
+    if os.path.exists(f"{dst}/meta.json"):
+        prev = json.load(open(f"{dst}/meta.json"))
+        if "first_contact" in prev:
+            meta["first_contact"] = prev["first_contact"]  # what the checks said before they had seen this change
     shutil.copy(patch, f"{dst}/patch.diff")
     shutil.copy(demo, f"{dst}/demo_test.go")
     if notes:
